@@ -60,6 +60,7 @@ def build_registry(mods):
     reg.models[common.forall_range] = _models.q_forall
     reg.models[common.exists_range] = _models.q_exists
     reg.models[common.is_opaque] = _models.m_is_opaque
+    reg.models[common.prefix_fold] = _models.m_prefix_fold
     reg.link()
     # loop specs keyed by (file, ast-qualname, ordinal)
     for (q, ordinal), ls in reg.loops.items():
